@@ -233,11 +233,12 @@ asarray = array
 
 
 class SparseZeros(Arr):
-    """np.zeros(n) for large n: only touched cells are stored (every other cell is the concrete 0)"""
+    """np.zeros(n) for large n: an ordered write log (index term, value); a read is an If-chain over the log, every cell never
+    written is the concrete 0. Indices may be concrete, symbolic with a finite domain, or arbitrary symbolic integers."""
 
     def __init__(self, n, dtype=None):
         self.n = n
-        self.cells = {}
+        self.log = []       # (z3 index term, value, candidate keys or None)
         self.dtype = dtype
 
     def __len__(self):
@@ -255,46 +256,52 @@ class SparseZeros(Arr):
     def data(self):
         raise ShimUnsupported('dense view of a large sparse array')
 
-    def _keys(self, i):
-        if i.dom is None:
-            raise ShimUnsupported('symbolic index without a finite domain into a large array')
-        return sorted(k for k in i.dom if 0 <= k < self.n)
+    def _read(self, ie):
+        e = z3.IntVal(0)
+        lo = hi = 0
+        for idx, val, _ in self.log:
+            e = z3.If(idx == ie, zint(val), e)
+            l, h = _bounds(val)
+            lo, hi = builtins.min(lo, l), builtins.max(hi, h)
+        return SInt.mk(e, lo, hi)
+
+    def _idx(self, i):
+        if isinstance(i, SInt):
+            symx.CTX.oob.append(z3.Or(i.e < 0, i.e >= self.n))
+            return i.e, (set(k for k in i.dom if 0 <= k < self.n) if i.dom is not None else None)
+        i = i.__index__()
+        if not -self.n <= i < self.n:
+            raise IndexError('index out of bounds')
+        return z3.IntVal(i % self.n), {i % self.n}
 
     def __getitem__(self, i):
         if isinstance(i, tuple) and len(i) == 1:
             i = i[0]
         if isinstance(i, Arr):
             return Arr([self[j] for j in i.data], self.dtype)
-        if isinstance(i, SInt):
-            symx.CTX.oob.append(z3.Or(i.e < 0, i.e >= self.n))
-            ks = self._keys(i)
-            vs = [self.cells.get(k, 0) for k in ks]
-            e = zint(vs[-1])
-            for k, v in list(zip(ks, vs))[-2::-1]:
-                e = z3.If(i.e == k, zint(v), e)
-            return SInt.mk(e, builtins.min(_bounds(v)[0] for v in vs), builtins.max(_bounds(v)[1] for v in vs))
-        i = i.__index__()
-        if not -self.n <= i < self.n:
-            raise IndexError('index out of bounds')
-        return self.cells.get(i % self.n, 0)
+        return self._read(self._idx(i)[0])
 
     def __setitem__(self, i, v):
-        if isinstance(i, SInt):
-            symx.CTX.oob.append(z3.Or(i.e < 0, i.e >= self.n))
-            for k in self._keys(i):
-                c = mkbool(i.e == k)
-                if c is True:
-                    self.cells[k] = v
-                elif c is not False:
-                    self.cells[k] = symx.ite(c, v, self.cells.get(k, 0))
-            return
-        i = i.__index__()
-        if not -self.n <= i < self.n:
-            raise IndexError('index out of bounds')
-        self.cells[i % self.n] = v
+        ie, keys = self._idx(i)
+        self.log.append((ie, v, keys))
 
     def touched(self):
-        return sorted(self.cells.items())
+        keys = set()
+        for _, _, ks in self.log:
+            if ks is None:
+                raise ShimUnsupported('enumerating the cells of a large array written at an unconstrained symbolic index')
+            keys |= ks
+        return [(k, self._read(z3.IntVal(k))) for k in sorted(keys)]
+
+    def max_value(self):
+        e = z3.IntVal(0)
+        hi = 0
+        for idx, _, _ in self.log:
+            v = self._read(idx)
+            ve = zint(v)
+            e = z3.If(ve > e, ve, e)
+            hi = builtins.max(hi, _bounds(v)[1])
+        return SInt.mk(e, 0, hi)
 
 
 def zeros(n, dtype=None):
@@ -311,6 +318,10 @@ def empty(n, dtype=None):
 
 
 def max(a):
+    if isinstance(a, SparseZeros):
+        return a.max_value()
+    if not isinstance(a, Arr):
+        a = Arr(list(a))
     vals = a.data
     if not vals:
         raise ValueError('zero-size array to reduction operation maximum which has no identity')
@@ -334,6 +345,10 @@ def min(a):
         ve = zint(v)
         e = z3.If(ve < e, ve, e)
     return _with_dom(SInt.mk(e, builtins.min(_bounds(v)[0] for v in vals), builtins.min(_bounds(v)[1] for v in vals)), vals)
+
+
+def _truth(x):
+    return bool(x)
 
 
 def argsort(a, kind=None, **kw):
@@ -434,13 +449,43 @@ def bincount(a, minlength=0):
     return Arr([count_nonzero(a == k) for k in range(n)], 'int64')
 
 
-def unique(a):
-    raise ShimUnsupported('np.unique')
+def unique(a, return_index=False, return_inverse=False, return_counts=False, **kw):
+    """sorted distinct values; the order/equality pattern of symbolic values is decided by forks"""
+    if return_index:
+        raise ShimUnsupported('np.unique(return_index)')
+    if not isinstance(a, Arr):
+        a = Arr(list(a))
+    order = argsort(a).data
+    groups = []
+    for i in order:
+        if groups and (a.data[groups[-1][0]] == a.data[i]):
+            groups[-1].append(i)
+        else:
+            groups.append([i])
+    vals = Arr([a.data[g[0]] for g in groups], a.dtype)
+    res = [vals]
+    if return_inverse:
+        inv = [0] * len(a.data)
+        for k, g in enumerate(groups):
+            for i in g:
+                inv[i] = k
+        res.append(Arr(inv, 'int64'))
+    if return_counts:
+        res.append(Arr([len(g) for g in groups], 'int64'))
+    return res[0] if len(res) == 1 else tuple(res)
 
 
 def arange(*a):
     return Arr(list(range(*[int(x) for x in a])), 'int')
 
 
+import types as _types
+typing = _types.ModuleType('numpy.typing')
+typing.NDArray = dict()
+typing.ArrayLike = object
+
+
 def __getattr__(name):
+    if name.startswith('__'):
+        raise AttributeError(name)
     raise ShimUnsupported(f'numpy.{name} is not modelled by the stand-in')
